@@ -242,7 +242,20 @@ func (g *cpuRig) excursion(r *vf.Rng, s0 ref.State, stale bool) {
 	for n := 1 + r.Intn(5); n > 0; n-- {
 		prog = append(prog, idioms[r.Intn(len(idioms))]...)
 	}
-	prog = append(prog, 0x18, 0xFB, 0xEA, 0xEA) // CLC ; XCE
+	hend := uint16(0)
+	if r.Intn(3) == 0 {
+		// the way back to native mode leads through a software interrupt taken while E=1 whose handler
+		// does not return with RTI: BRK, vector $00:FFFE, handler CLC ; XCE
+		h := uint16(0x0400 + r.Intn(0x1000))
+		prog = append(prog, 0x00, byte(r.Intn(256)), 0xEA, 0xEA)
+		img.Ov[0xFFFE], img.Ov[0xFFFF] = byte(h), byte(h>>8)
+		for i, b := range []byte{0x18, 0xFB, 0xEA, 0xEA} {
+			img.Ov[uint32(h)+uint32(i)] = b
+		}
+		hend = h + 2
+	} else {
+		prog = append(prog, 0x18, 0xFB, 0xEA, 0xEA) // CLC ; XCE
+	}
 	for i, b := range prog {
 		img.Ov[uint32(st.K)<<16|uint32(st.PC+uint16(i))] = b
 	}
@@ -250,12 +263,12 @@ func (g *cpuRig) excursion(r *vf.Rng, s0 ref.State, stale bool) {
 	g.loadAltFromPrim()
 	mp, ma := img.Clone(), img.Clone()
 	end := st.PC + uint16(len(prog)) - 2
-	for i := 0; i < len(prog) && g.prim.PC != end; i++ {
+	for i := 0; i < len(prog)+4 && g.prim.PC != end && !(hend != 0 && g.prim.RK == 0 && g.prim.PC == hend); i++ {
 		if res := g.stepPrim(mp); res.pan != nil {
 			break
 		}
 	}
-	for i := 0; i < len(prog) && g.alt.PC != end; i++ {
+	for i := 0; i < len(prog)+4 && g.alt.PC != end && !(hend != 0 && g.alt.RK == 0 && g.alt.PC == hend); i++ {
 		if res := g.stepAlt(ma); res.pan != nil {
 			break
 		}
@@ -264,10 +277,10 @@ func (g *cpuRig) excursion(r *vf.Rng, s0 ref.State, stale bool) {
 	c := &g.prim
 	c.AllCycles, c.Cycles, c.Stopped, c.PRK, c.PPC, c.WDM = 0, 0, false, 0, 0, 0
 	c.OnWDM, c.OnPC = nil, nil
-	c.B, c.E, c.Interrupt = 0, 0, 0
+	c.E, c.Interrupt = 0, 0 // (B, a public field the interpreters document no meaning for, stays as they left it)
 	c.StepInfo = cpu65c816.StepInfo{}
 	g.assignPrim(s0, stale, r)
-	g.alt.E, g.alt.B = 0, 0
+	g.alt.E = 0
 	g.loadAltFromPrim()
 }
 
